@@ -2,10 +2,12 @@
    Only ExtrOcamlBasic's directives are in force (bool, option, unit, list, prod,
    sumbool, sumor; andb/orb inlined).  Z, positive, nat stay the extracted datatypes;
    the float instance of [Num] is an OCaml record value supplied by ocaml/driver.ml. *)
-From AC Require Import Num Kernels.
+From AC Require Import Num Kernels Params.
+From AC.Water Require Import RootZone.
 From Coq Require Import ExtrOcamlBasic.
 Definition keep_nat : nat -> nat := S.
 Extraction Language OCaml.
 Extraction "ocaml/model.ml" keep_nat
   growing_degree_day water_stress kst_heat kst_cold aeration_stress cc_development
-  cc_required_time_cgc cc_required_time_cdc fco2.
+  cc_required_time_cgc cc_required_time_cdc fco2
+  storage root_zone_water.
